@@ -39,7 +39,8 @@ Ev == Trace[l]
 SetOf(q) == {q[i] : i \in 1 .. Len(q)}
 MaxK == 8
 
-CfgOf(e) == [range |-> SetOf(e.range), k |-> MaxK, atomic |-> FALSE, ret |-> TRUE, env |-> TRUE, sparse |-> FALSE, split |-> FALSE]
+CfgOf(e) == [range |-> SetOf(e.range), k |-> MaxK, atomic |-> FALSE, ret |-> TRUE, env |-> TRUE, sparse |-> FALSE, split |-> FALSE,
+             early |-> FALSE]
 
 TraceInit ==
     /\ l = 2 /\ viol = ""
@@ -240,6 +241,9 @@ StepOf(c) ==
     \/ At(c, "Add", "started") /\ Internal("", AddStarted(c))
     \/ At(c, "Remove", "detach") /\ Internal("", RemDetach(c))
     \/ At(c, "Remove", "dbdel") /\ Internal("", RemDb(c, TRUE))
+    \* (whether the loop of the removed torrent wrote its bitfield while it was closed is not reported: both are tried;
+    \*  a write that lands in the record of a new owner of the id is judged at the next observation, C14.record)
+    \/ At(c, "Remove", "close") /\ \E wr \in BOOLEAN : Internal("", RemClose(c, wr))
     \/ At(c, "Remove", "release") /\ Internal("", RemRelease(c))
     \/ /\ pc[c].step = "lookup"
        /\ LET found == Rres(c) # "notfound" IN Internal(LookupViol(c, found), LookupUpd(c, found))
@@ -300,7 +304,11 @@ ObsViol(e) ==
         \*   record that failed to load and whose bucket the add re-uses): no info dictionary for a torrent added without
         \*   one, no bitfield for a torrent that has never been started
         ELSE IF \E o \in dbo : ~db[o.id].bad /\ ~db[o.id].p.st.meta /\ o.meta THEN "C14.record.inherited-info"
-        ELSE IF \E o \in dbo : ~db[o.id].bad /\ db[o.id].bf = "" /\ o.bf # "" THEN "C14.record.inherited-bitfield"
+        \* (bf = "left": on this interleaving a torrent that was being removed wrote its bitfield into the record of the new
+        \*  owner of its id while it was closed - the envelope explains the write, the obligation forbids what it leaves)
+        ELSE IF \E o \in dbo : ~db[o.id].bad /\ db[o.id].bf \in {"", "left"} /\ o.bf # "" THEN "C14.record.inherited-bitfield"
+        \* (... and an interleaving with such a write does not explain a record that shows no bitfield)
+        ELSE IF \E o \in dbo : ~db[o.id].bad /\ db[o.id].bf = "left" /\ o.bf = "" THEN tag \o ".db"
         ELSE IF {WithStarted(ObsRec(o), o.started) : o \in {x \in dbo : ~db[x.id].bad}} # {r \in DbRecs : ~db[r.id].bad} THEN tag \o ".db"
         ELSE IF av # ports THEN tag \o ".ports"
         ELSE IF AfterReopen /\ \E o \in live : o.run # "e" /\ ((o.run = "y") # db[o.id].started) THEN "C14.restart.started"
@@ -337,9 +345,14 @@ TraceNext ==
 
 TraceSpec == TraceInit /\ [][TraceNext]_tvars
 
+Generic(t) == t \in {"", "C14.state.live", "C14.state.db", "C14.state.ports", "C14.restart.live", "C14.restart.db", "C14.restart.ports"}
+
 HighWater ==
     /\ TLCSet(1, IF l > TLCGet(1) THEN l ELSE TLCGet(1))
-    /\ IF viol # "" /\ l >= TLCGet(2)[1] THEN TLCSet(2, <<l, viol>>) ELSE TRUE
+    \* (equally far into the trace, the tag of an obligation is kept rather than a "this interleaving does not match the
+    \*  observation" tag of another interleaving: the verdict does not depend on the order of the search)
+    /\ IF viol # "" /\ (l > TLCGet(2)[1] \/ (l = TLCGet(2)[1] /\ (Generic(TLCGet(2)[2]) \/ ~Generic(viol))))
+       THEN TLCSet(2, <<l, viol>>) ELSE TRUE
     \* the first untainted state that has consumed the whole file: the file is ACCEPTED and TLC stops (with the
     \* depth-first state queue an accepted file costs about one state per line; only a file without an accepting
     \* interleaving is searched exhaustively, and then TraceAccepted gives the verdict)
